@@ -103,6 +103,29 @@ def run(ctx):
     for _ in range(n):
         prob, theme = ce.gen_problem(rng)
         problems.append((prob, theme))
+    # ONE constraint whose variables are several views of ONE shared domain (offsets differ): the write-back of such a constraint
+    # can instantiate the domain although its own all-ground test did not fire, so it wakes ITSELF and is the only pending
+    # constraint — unsharing it, or posting it twice, must still give the same solutions (S159)
+    for _ in range(60 * nv.boost("engine") if ctx["tier"] == "quick" else 1500):
+        a = rng.randint(-2, 2)
+        shr = [(a, a + rng.choice([1, 1, 2, 3]))]
+        if rng.random() < 0.3:
+            b = rng.randint(-2, 2)
+            shr.append((b, b + rng.choice([0, 1, 2])))
+        k = rng.randint(2, 3)
+        offs = rng.sample([-2, -1, 0, 1, 2], k)
+        idx, off = [0] * k, list(offs)
+        for d in range(1, len(shr)):
+            idx.append(d)
+            off.append(0)
+        vs = list(range(len(idx)))
+        rng.shuffle(vs)
+        vs = vs[:rng.randint(2, len(vs))]
+        cs = [rng.choice([-2, -1, 1, 1, 2, 3]) for _ in vs]
+        q = nv.Prob(shr, idx, off)
+        mid = sum(c * rng.randint(shr[idx[v]][0] + off[v], shr[idx[v]][1] + off[v]) for c, v in zip(cs, vs))
+        q.props.append((vs, rng.choice(["affine_eq", "affine_eq", "affine_leq", "affine_geq"]), cs + [mid + rng.choice([-1, 0, 0, 0, 1])]))
+        problems.append((q, "views-of-one-domain"))
     # shipped examples at sizes beyond brute force (these relations need no oracle)
     try:
         from nucs.examples.magic_sequence.magic_sequence_problem import MagicSequenceProblem
